@@ -61,6 +61,14 @@ func Corpus() []Scenario {
 			sel(0, 0), sel(1, 0), app(0, 0, 1), app(0, 0), app(0, 0), drain(1), cmd(1, "noop"), cmd(1, "probe"),
 			cmd(0, "expunge"), drain(1), byuid(store(1, []int{2}, "add", false, 3)), cmd(1, "probe"), byuid(store(1, []int{3}, "add", true, 4)),
 			byuid(fb(1, "fetchbody", 2)), byuid(cmd(1, "search")), cmd(1, "probe"), qs(1)}},
+		{Name: "close-removes-silently-and-drops-pending-news", K: 2, Ops: []Op{ // CLOSE: \Deleted messages go without EXPUNGE; pending news do not survive into the next mailbox
+			sel(0, 0), sel(1, 0), app(0, 0, 1), app(0, 0), app(0, 0, 1), drain(1), cmd(1, "noop"), cmd(1, "probe"),
+			app(0, 0), store(0, []int{2}, "add", false, 3), drain(1), cmd(1, "search"), cmd(1, "close"), sel(1, 1), cmd(1, "noop"), cmd(1, "probe"),
+			drain(0), cmd(0, "noop"), cmd(0, "probe"), qs(0), sel(1, 0), qs(1)}},
+		{Name: "unselect-drops-pending-news", K: 2, Ops: []Op{ // UNSELECT: nothing removed, nothing sent; held removals do not reach the next mailbox
+			sel(0, 0), sel(1, 0), app(0, 0, 1), app(0, 0), drain(1), cmd(1, "noop"), cmd(1, "probe"),
+			cmd(0, "expunge"), app(0, 0), drain(1), cmd(1, "search"), cmd(1, "unselect"), cmd(1, "noop"), sel(1, 1), cmd(1, "noop"), cmd(1, "probe"),
+			sel(1, 0), qs(1), qs(0)}},
 		{Name: "pending-exists-then-readd", K: 2, Ops: []Op{ // appended, removed and put back before the observer heard of it at all
 			sel(0, 0), sel(1, 0), app(0, 0), mv(0, []int{1}, 1), sel(0, 1), mv(0, []int{1}, 0), sel(0, 0),
 			drain(1), cmd(1, "search"), cmd(1, "probe"), qs(1)}},
